@@ -301,7 +301,7 @@ def run_property(prop, tier, seed):
     fuzz_s = int(os.environ.get("VERIF_FUZZ_S", tierconf.get("fuzz_s", 0)))
     jobs = [(prop, c, False) for c in cfgs]
     if fuzz_s and p.get("fuzz"):
-        jobs += [(prop, c, True) for c in tierconf.get("fuzz_configs", ["default"])]
+        jobs += [(prop, c, True) for c in tierconf.get("fuzz_configs", [cfgs[0]])]
     try:
         bins = build_all(jobs)
     except RuntimeError as e:
@@ -386,6 +386,8 @@ def run_property(prop, tier, seed):
                 tasks.append((c, phase, sh, cmd, outp, b, params))
 
     timeout = int(tierconf.get("timeout", 1500 if tier == "quick" else 6 * 3600))
+    if os.environ.get("VERIF_FUZZ_ONLY"):
+        tasks = []
 
     def do(task):
         c, phase, sh, cmd, outp, b, params = task
@@ -479,10 +481,11 @@ def run_property(prop, tier, seed):
         "wall_s": round(wall, 1),
         "violations": len(violations),
     }
-    os.makedirs(os.path.join(ROOT, "evidence"), exist_ok=True)
-    with open(os.path.join(ROOT, "evidence", prop + ".json"), "w") as fh:
-        json.dump(ev, fh, indent=1)
-        fh.write("\n")
+    if "--no-evidence" not in sys.argv:
+        os.makedirs(os.path.join(ROOT, "evidence"), exist_ok=True)
+        with open(os.path.join(ROOT, "evidence", prop + ".json"), "w") as fh:
+            json.dump(ev, fh, indent=1)
+            fh.write("\n")
 
     for l in known_lines:
         log(l)
@@ -511,8 +514,9 @@ def run_property(prop, tier, seed):
 
 def run_fuzz(prop, bins, tierconf, fuzz_s, seed, rundir, violations, infra_errors):
     p = PROPS[prop]
+    cfgs = tierconf.get("configs", ["default"])
     info = {"seconds": fuzz_s, "configs": {}}
-    for c in tierconf.get("fuzz_configs", ["default"]):
+    for c in tierconf.get("fuzz_configs", [cfgs[0]]):
         fb = bins[(prop, c, True)]
         rb = bins.get((prop, c, False))
         corpus = os.path.join(rundir, "fuzz-corpus-" + c)
